@@ -684,9 +684,18 @@ def extract():
                 meta_copied=meta_copied, shares_xy=shares, ecopy_slots=ecopy_slots, bulk=bulk_sites(C))
 
 
-def render(d):
+def render(d, data_only_namespace=None):
+    """Lean text. `data_only_namespace`: emit only the data definitions into that namespace (types come from the
+    regenerated module) — used once to freeze the pre-fix tables for Findings/C13Old.lean."""
     L = []
     w = L.append
+    if data_only_namespace:
+        text = render(d)
+        body = text[text.index('def cachedKeys'):text.rindex('end ChythonModel.Gen.CacheEffects')]
+        return ('import ChythonModel.Gen.CacheEffects\n/- FROZEN copy of the effect tables of /repo before the C13 fix: commits '
+                '(generated once by gen_effects from that tree). -/\n'
+                f'namespace {data_only_namespace}\nopen ChythonModel.Gen.CacheEffects\n\n' + body +
+                f'end {data_only_namespace}\n')
     w('/- GENERATED by harness/gen/gen_effects.py from the source text of /repo on every run — do not edit. -/')
     w('namespace ChythonModel.Gen.CacheEffects')
     w('')
